@@ -547,9 +547,10 @@ _add("C01", rule="(netsimx, one worker in four) the same scenario on the build w
 _add("C02", rule="(netsimx, one worker in four) the same scenario on the build with automatic schedule points; 3% of the runs use receive buffers "
      "above 64 KB that are no multiple of the window-scale unit, transfers of 150-300 KB and pausing readers, so that scaled windows really close",
      probes=[])
-_add("C03", rule="in SYN-SENT, segments without SYN (bare ACK, data, FIN-ACK) that acknowledge something else (one reset each); a second SYN with another "
+_add("C03", rule="ACK-bearing segments at the listening port with no handshake in progress must draw one reset (known finding F25, reported only when the run "
+     "shows nothing else); in SYN-SENT, segments without SYN (bare ACK, data, FIN-ACK) that acknowledge something else (one reset each); a second SYN with another "
      "sequence number while a passive handshake is half open (the listening port never sends a SYN of its own, no connection comes of it)",
-     probes=["active_wrong_ack_without_syn", "second_syn_with_another_sequence_number"])
+     probes=["active_wrong_ack_without_syn", "second_syn_with_another_sequence_number", "ack_bearing_segment_at_listener", "known_finding_F25"])
 _add("C04", rule="active opens whose peer offers a small window (100-20000 bytes) on its SYN-ACK and whose SYN-ACK arrives a second time (finding F23); "
      "ACKs half the sequence space ahead of anything sent", probes=["syn_ack_repeated", "acks_of_data_never_sent"])
 _add("C05", rule="the application shuts down its write side while data is outstanding: the FIN is a segment like any other for the initial window, the "
@@ -557,9 +558,10 @@ _add("C05", rule="the application shuts down its write side while data is outsta
      "receiver whose advancing ACKs also change the window; inside a fast-recovery episode three duplicates of a partial ACK cannot leave the segment it "
      "points at untransmitted",
      probes=["fin_segments_seen", "write_side_shut_down", "packet_too_big_without_a_smaller_mtu", "partial_ack_then_three_duplicates"])
-_add("C06", rule="echo requests sent through ping sockets (IPv4 and IPv6; finding F24); two networks behind routers that carry the same address on two "
+_add("C06", rule="the first IPv4 address of NIC 1 is removed and assigned again during the run (finding F26: new sockets must not send from it; sockets bound to it "
+     "are not judged meanwhile); echo requests sent through ping sockets (IPv4 and IPv6; finding F24); two networks behind routers that carry the same address on two "
      "different links; one addr worker and the demux worker run on the netsimx build",
-     probes=["echo_requests_sent_by_ping_sockets", "ping_frames_checked"])
+     probes=["echo_requests_sent_by_ping_sockets", "ping_frames_checked", "address_removed", "address_assigned_again"])
 _add("C07", rule="valid transport packets cut into 10-25 fragments (one view per fragment reaches the transport layer); on a fresh connection whose local "
      "side has shut down writing: three to five identical ACKs that do not cover the FIN, then one that does",
      probes=["transport_packets_in_many_fragments", "duplicate_acks_with_only_a_fin_in_flight"])
